@@ -172,7 +172,7 @@ def render_string(b, f, rng, force_quote=False):
             out += b"\\" + simple[c]
         elif f.get("escapes") and (c < 32 or c > 126 or rng.random() < 0.1):
             out += b"\\x%02x" % c if rng.random() < 0.5 else b"\\x%02X" % c
-        elif f.get("esc_unknown") and 32 < c < 127 and chr(c) not in "abfnrtvx\"\\" and rng.random() < 0.2:
+        elif f.get("esc_unknown") and (32 < c < 127 or c >= 128) and chr(c) not in "abfnrtvx\"\\" and rng.random() < (0.2 if c < 128 else 0.5):
             out += b"\\" + bytes([c])
         else:
             out.append(c)
